@@ -16,14 +16,16 @@ def spell(kind, cls, d, rng):
     if kind == "H":
         w = HALF_WORD[d]
         opts = {"SYM": [d + "½"], "SLASH": [d + "/2"], "BARE": [d + "2", d + "2", d + " 2"],
-                "FRAC": [d + " 1/2", d + "1/2", d + " / 2", d + " /2"],
-                "WORD": [w + " Half"], "WORDONE": [w + " One Half"],
+                "FRAC": [d + " 1/2", d + "1/2", d + " / 2", d + " /2", d + ". 1/2"],
+                "WORD": [w + " Half"], "WORDONE": [w + " One Half", w + " One-Half"],
                 "WORDFRAC": [w + " 1/2"] + (["No. 1/2"] if d == "N" else []) + (["So. 1/2"] if d == "S" else [])}[cls]
     else:
         ws = Q_WORD[d]
+        dotted = "%s.%s." % (d[0], d[1])
         opts = {"SYM": [d + "¼"], "SLASH": [d + "/4"], "BARE": [d + "4", d + "4", d + " 4"],
-                "FRAC": [d + " 1/4", d + "1/4", d + " / 4"],
-                "WORD": [x + " Quarter" for x in ws], "WORDONE": [x + " One Quarter" for x in ws],
+                "FRAC": [d + " 1/4", d + "1/4", d + " / 4", dotted + " 1/4"],
+                "WORD": [x + " Quarter" for x in ws] + [ws[1].replace(" ", "-") + " Quarter"],
+                "WORDONE": [x + " One Quarter" for x in ws] + [ws[0] + " One-Quarter"],
                 "WORDFRAC": [ws[0] + " 1/4"], "BAREQ": [d]}[cls]
     s = rng.choice(opts)
     r = rng.random()
